@@ -21,7 +21,7 @@ class AreaRows(Harness):
                  AP + "Area.from_feature", AP + "Area.to_minimal_json",
                  "antismash.common.secmet.features.region.structures:Region.get_unique_protoclusters",
                  "antismash.common.secmet.record:Record.create_candidate_clusters", "antismash.common.secmet.record:Record.create_regions"]
-    bound = ("regions built by the real formation code from <= 2 protoclusters (quick: two protoclusters only without subregion and without origin-spanning core) (core inside extent; extent and optionally core spanning "
+    bound = ("regions built by the real formation code from <= 2 protoclusters (quick: two protoclusters only without subregion and without origin-spanning core; never an origin-spanning protocluster together with a second one and a subregion) (core inside extent; extent and optionally core spanning "
              "the origin) and an optional subregion, symbolic coordinates and record length; linear, circular, origin-spanning and "
              "whole-record regions")
     outside = "more than 2 protoclusters / 1 subregion; genes (convert_cds_features needs the HTML description builders); HTML"
@@ -34,6 +34,8 @@ class AreaRows(Harness):
             for sub in (False, True):
                 if tier == "quick" and len(shapes) == 2 and (sub or shapes[0] == "oc"):
                     continue   # two protoclusters plus a subregion: thorough tier
+                if len(shapes) == 2 and sub and shapes[0] != "s":
+                    continue   # an origin-spanning protocluster, a second one and a subregion: ~10^5 paths, not registered
                 circ = any(sh != "s" for sh in shapes)
                 out.append({"shapes": shapes, "sub": sub, "circ": circ})
                 if not circ and len(shapes) == 1:
